@@ -1243,7 +1243,14 @@ func c15PerformJoinOn(c *mon.Ctx, r *gen.Rand, sc *simScenario, rb *simBranch, v
 					// the joining server's own annotation for the event; whether it can be attached or not, the join is the join
 					in.Unsigned = map[string]interface{}{"note": "local", "score": 0.5, "big": 9007199254740993}
 				}
+				// the content the caller wants in its join (a profile); the map is the caller's - it tries one server after
+				// the other with it - and reads afterwards as it did before
+				callerContent := map[string]interface{}{"displayname": "Joiner"}
+				in.Content = callerContent
 				out, ferr = gmsl.PerformJoin(context.Background(), client, in)
+				if len(callerContent) != 1 || callerContent["displayname"] != "Joiner" {
+					c.Failf("perform_join:callers-content-map-rewritten", "PerformJoin left %v in the content map the caller handed in (the remote's template and the join's own members are not the caller's next attempt's business)", callerContent)
+				}
 			})
 			if pan {
 				c.Failf("perform_join:panic:"+site, "PerformJoin panics: %s", msg)
